@@ -129,6 +129,69 @@ Proof.
     + right. exists t. reflexivity.
 Qed.
 
+(* decidable equality of members (for "the child's members are the parent's members followed by its own") *)
+Definition field_eq_dec : forall a b : field, {a = b} + {a <> b}.
+Proof. repeat decide equality. Defined.
+Definition fields_eqb (a b : list field) : bool := if list_eq_dec field_eq_dec a b then true else false.
+Lemma fields_eqb_eq a b : fields_eqb a b = true -> a = b.
+Proof. unfold fields_eqb. destruct (list_eq_dec field_eq_dec a b); [trivial|discriminate]. Qed.
+
+Definition opt_is_size (o : option string) : bool := match o with Some n => String.eqb n "size" | None => false end.
+Lemma opt_is_size_eq o : opt_is_size o = true -> o = Some "size".
+Proof. destruct o; cbn; [|discriminate]. intros H. apply String.eqb_eq in H. now subst. Qed.
+
+Definition based_structb (s : struct) : bool :=
+  match base_struct tm s with
+  | Some a =>
+    match struct_fields_nc a with
+    | f0 :: hrest =>
+      match f_type f0, f_cond f0 with
+      | FInt i, None =>
+        let allfs := struct_fields_nc s in
+        let own := own_fields tm s in
+        match s_disp s with SdAbstract => false | _ => true end
+        && fields_eqb allfs (f0 :: hrest ++ own)
+        && nodup_names (map f_name (f0 :: hrest ++ own))
+        && opt_is_size (struct_size_attr a) && opt_is_size (struct_size_attr s)
+        && String.eqb (f_name f0) "size" && (0 <? it_size i) && it_unsigned i
+        && negb (is_reserved f0) && is_settable allfs f0
+        && orderedb allfs [] hrest && orderedb allfs hrest own
+      | _, _ => false
+      end
+    | [] => false
+    end
+  | None => false
+  end.
+
+Lemma based_structb_sound s : self_lookup s -> based_structb s = true ->
+  exists a f0 i hrest, based_struct tm s a f0 i hrest.
+Proof.
+  intros Hself H. unfold based_structb in H.
+  destruct (base_struct tm s) as [a|] eqn:Hb; [|discriminate].
+  destruct (struct_fields_nc a) as [|f0 hrest] eqn:Hpa; [discriminate|].
+  destruct (f_type f0) as [i| |] eqn:Hft; try discriminate. destruct (f_cond f0) eqn:Hfc; [discriminate|].
+  repeat (apply Bool.andb_true_iff in H as [H ?]).
+  match goal with Hx : fields_eqb _ _ = true |- _ => pose proof (fields_eqb_eq _ _ Hx) as Hall end.
+  match goal with Hx : nodup_names _ = true |- _ => pose proof (nodup_names_sound _ Hx) as Hnd end.
+  assert (Hnd_all : NoDup (map f_name (struct_fields_nc s))) by (rewrite Hall; exact Hnd).
+  exists a, f0, i, hrest. constructor; try assumption.
+  - destruct (s_disp s); congruence.
+  - now apply opt_is_size_eq.
+  - now apply opt_is_size_eq.
+  - now apply String.eqb_eq.
+  - lia.
+  - match goal with Hx : negb (is_reserved f0) = true |- _ => now apply Bool.negb_true_iff in Hx end.
+  - apply orderedb_sound; [exact Hnd_all | intros f Hf; rewrite Hall; right; apply in_or_app; now left | assumption].
+  - apply orderedb_sound; [exact Hnd_all | intros f Hf; rewrite Hall; right; apply in_or_app; now right | assumption].
+Qed.
+
+Definition struct_okb (s : struct) : bool := flat_structb s || based_structb s.
+
+Lemma struct_okb_sound s : self_lookup s -> struct_okb s = true -> struct_ok tm s.
+Proof.
+  intros Hself H. apply Bool.orb_true_iff in H as [H|H]; [left; now apply flat_structb_sound | right; now apply based_structb_sound].
+Qed.
+
 (* values *)
 Definition member_typedb (allfs : list field) (admb : string -> value -> bool) (self : value) (f : field) : bool :=
   match classify tm allfs f with
@@ -171,9 +234,9 @@ Fixpoint admb (n : nat) (t : string) (v : value) : bool :=
       String.eqb t cls &&
       match lookup_struct tm cls with
       | Some s =>
-        flat_structb s
+        struct_okb s
         && str_list_eqb (map fst vs) (map f_name (settable_fields s))
-        && forallb (member_typedb (struct_fields_nc s) (admb n') v) (struct_fields_nc s)
+        && forallb (member_typedb (struct_fields_nc s) (admb n') v) (typed_members tm s)
       | None => false
       end
     end
@@ -217,7 +280,7 @@ Proof.
     destruct (lookup_struct tm cls) as [s|] eqn:Hls; [|discriminate].
     destruct (lookup_struct_self cls s Hls) as [Hname Hself].
     apply Bool.andb_true_iff in H as [H Hm]. apply Bool.andb_true_iff in H as [Hflat Hvs].
-    split; [exact Hname|]. split; [exact (flat_structb_sound s Hself Hflat)|]. split; [now apply str_list_eqb_eq|].
+    split; [exact Hname|]. split; [exact (struct_okb_sound s Hself Hflat)|]. split; [now apply str_list_eqb_eq|].
     intros f Hf. rewrite forallb_forall in Hm. exact (member_typedb_sound _ (admb n) (adm tm n) _ f (IH) (Hm f Hf)).
 Qed.
 
